@@ -60,6 +60,8 @@ def ob_last_slice_prune(run, oid):
 
 
 def check(run):
+    from . import detectors as _DL
+    _DL.ob_loop_exits(run, "O13.9", ['consensus::blockstore'], 'every slice of a block is reconstructed and checked: a loop that stops early assembles a partial block')
     # "can afterwards serve every shred, slice root and proof of it": the lookup behind all getters
     from . import C14
     C14.ob_block_lookup(run, "O13.8")
